@@ -259,6 +259,18 @@ def match_array(spec, val, ctx, label=None, flatten_mode=False):
     val = unshare(val)
     at = spec["atype"]
     vt = val["t"]
+    if "+" in at:
+        # Dtype[Union[A, scalar], dims] == Union[Dtype[A, dims], scalar] if every axis is a multi-axis specifier and the category has
+        # a dtype whose name starts with the scalar's name, else Dtype[A, dims]; a scalar matches by isinstance and binds nothing
+        at, sc = at.split("+")
+        if vt == "py":
+            made = all(t["kind"] in ("var", "anonvar") for t in parse_dims(spec["dims"])) and \
+                any(d.startswith(sc) for d in CATEGORIES[spec["dtype"]])
+            is_inst = {"float": ("float",), "int": ("int", "bool"), "bool": ("bool",)}[sc]
+            if made and val["k"] in is_inst:
+                return {ACCEPT}, ctx.copy()
+            return {REJECT}, None
+        spec = dict(spec, atype=at)
     if vt not in ("np", "duck", "mduck"):
         return {REJECT}, None
     if at == "np" and vt != "np":
